@@ -269,6 +269,8 @@ def r3(ctx):
     lines = sorted((int(c[3].split(":")[1]), c[2]) for c in calls if c[1] == "line")
     templ = sorted((st["line"], st["s"]) for _, f in fns for st in f["strings"] if st["s"] in ("{}min", "{}max"))
     detail = {"function": g.path, "templates": templ, "line_calls": lines}
+    if len(templ) != 2 and lines and _table_driven_accessors(ctx, rule, P, g, Og, fns, lines, detail):
+        return
     if len(templ) != 2 or not lines:
         ctx.fail(rule, "accessors#anchor-lost", "the `{}min` / `{}max` accessor templates are gone", "%s:%d" % (g.file, g.line), detail)
         return
@@ -285,6 +287,39 @@ def r3(ctx):
                      "%s:%d" % (g.file, nxt[0][0]), detail)
         else:
             ctx.ok(rule, "accessor:" + which, {"template": t, "body": nxt[0][1][:80]})
+
+
+def _table_driven_accessors(ctx, rule, P, g, Og, fns, lines, detail):
+    """the accessors written as a loop over a literal table `[("min", range.min()), ("max", range.max())]` whose first column is
+    appended to the prefix (`{}{}`) and whose second column is the body line: each row pairs the word with the same-named getter"""
+    from .. import strtab as S
+    rows = []
+    for bb, j, s in g.all_statements():
+        if s["k"] == "assign" and s["rv"]["k"] == "agg" and s["rv"].get("ak") == "array":
+            ex = Og.rvalue(s["rv"], bb, j, 0)
+            row = []
+            for _, el in ex[4]:
+                if el[0] == "agg" and el[1] == "tuple" and len(el[4]) == 2:
+                    w = S.const_str(el[4][0][1], P, g.crate)
+                    if w is not None:
+                        row.append((w, X.render(el[4][1][1])))
+            if row and len(row) == len(ex[4]):
+                rows.append(row)
+    rows = [r for r in rows if {w for w, _ in r} == {"min", "max"}]
+    templ2 = [st["s"] for _, f in fns for st in f["strings"] if st["s"] == "{}{}"]
+    # the body line prints the second column of the row that is being iterated, the name the first
+    from_iter = [l for l in lines if "next(" in l[1] and (".1" in l[1])]
+    if len(rows) != 1 or not templ2 or not from_iter:
+        return False
+    detail = dict(detail)
+    detail["table"] = rows[0]
+    for w, v in rows[0]:
+        other = "max" if w == "min" else "min"
+        if ("Range::%s(" % w) not in v or ("Range::%s(" % other) in v:
+            ctx.fail(rule, "accessor:" + w, "the *_%s accessor prints `%s` instead of range.%s()" % (w, v[:60], w), "%s:%d" % (g.file, g.line), detail)
+        else:
+            ctx.ok(rule, "accessor:" + w, {"table_row": [w, v[:80]], "template": "{}{}"})
+    return True
 
 
 def run(ctx):
